@@ -182,8 +182,11 @@ class Check:
             else:
                 new.append(v)
         rc = 0
-        for sig, vs in sorted(listed.items()):
-            print(f"KNOWN-FINDING: property={self.pid} {sig} ({len(vs)} instance(s); {kf[(self.pid, sig)].get('what','')})")
+        for n, (sig, vs) in enumerate(sorted(listed.items())):
+            what = kf[(self.pid, sig)].get("what", "")
+            print(f"KNOWN-FINDING: property={self.pid} {sig} ({len(vs)} instance(s) this run): {what[:300]}")
+            with open(os.path.join(ROOT, "replays", f"known_{self.pid}_{n}.json"), "w") as f:
+                json.dump(dict(vs[0], instances=len(vs)), f, indent=1, default=str)
         seen = set()
         for i, v in enumerate(new):
             sig = v.get("signature", "unclassified")
